@@ -190,8 +190,36 @@ func round18Harmless() []mutant {
 	return out
 }
 
+// round20Unresolved: correct changes of round 20 on which a rule still reports (see DESIGN §11).
+var round20Unresolved = map[string]string{}
+
+// round20Harmless: the correct changes of round 20 (refactors/r20/<property>/{a,b,c,d}.diff: small everyday
+// edits — a local re-spelling, naming / extraction, reordering / modern idiom, messages and checks).
+func round20Harmless() []mutant {
+	var out []mutant
+	ms, _ := filepath.Glob(filepath.Join(verifDir, "refactors", "r20", "*", "?.diff"))
+	sort.Strings(ms)
+	for _, m := range ms {
+		prop := filepath.Base(filepath.Dir(m))
+		rel, err := filepath.Rel(verifDir, m)
+		if err != nil {
+			continue
+		}
+		letter := strings.TrimSuffix(filepath.Base(m), ".diff")
+		if _, skip := round20Unresolved[prop+"/"+letter]; skip {
+			continue
+		}
+		id := "h-r20-" + prop + "-" + letter
+		if b, err := os.ReadFile(m); err == nil && (strings.Contains(string(b), "faiss_vector") || strings.Contains(string(b), "section_faiss")) {
+			out = append(out, mutant{Harmless: true, ID: id + "-vectors", Patch: rel, Vectors: true})
+		}
+		out = append(out, mutant{Harmless: true, ID: id, Patch: rel})
+	}
+	return out
+}
+
 func harmlessTable() []mutant {
-	return append(append(append(append(append(append(append(fixedHarmless(), smallHarmless()...), round8Harmless()...), round9Harmless()...), round12Harmless()...), round13Harmless()...), round15Harmless()...), round18Harmless()...)
+	return append(append(append(append(append(append(append(append(fixedHarmless(), smallHarmless()...), round8Harmless()...), round9Harmless()...), round12Harmless()...), round13Harmless()...), round15Harmless()...), round18Harmless()...), round20Harmless()...)
 }
 
 func fixedHarmless() []mutant {
@@ -472,6 +500,9 @@ func fixedHarmless() []mutant {
 		{Harmless: true, ID: "h-r16-C18n-fixed", Patch: "seeded/C18n-plumb-poll-helper-skipped-for-empty/fixed.diff"},
 		{Harmless: true, ID: "h-r16-C19n-fixed", Patch: "seeded/C19n-plumb-newmergedindex-deferred-close-reads-nil-result/fixed.diff"},
 		{Harmless: true, ID: "h-r16-C20n-fixed", Patch: "seeded/C20n-plumb-close-chains-to-segmentbase-close/fixed.diff"},
+		{Harmless: true, ID: "h-r19-C14q-fixed", Patch: "seeded/C14q-refac-vec-index-handle-stale-docvecmap/fixed.diff"},
+		{Harmless: true, ID: "h-r19-C16q-fixed", Patch: "seeded/C16q-refac-vec-index-handle-existing-entry-no-ref/fixed.diff"},
+		{Harmless: true, ID: "h-r19-C17q-fixed", Patch: "seeded/C17q-refac-segmentfile-owner-abort-guarded-by-closed/fixed.diff"},
 		{Harmless: true, ID: "h-r19-C01q-fixed", Patch: "seeded/C01q-refac-postings-iterator-locs-uncut/fixed.diff"},
 		{Harmless: true, ID: "h-r19-C02q-fixed", Patch: "seeded/C02q-refac-stored-doc-writer-unstable-sort/fixed.diff"},
 		{Harmless: true, ID: "h-r19-C05q-fixed", Patch: "seeded/C05q-refac-stored-docs-merger-copy-returns-zero/fixed.diff"},
